@@ -29,14 +29,24 @@ type Delays struct {
 	LogLate bool        `json:"log_late"` // record a received feature after (true) or before the handling delay
 }
 
+// LongPauses: pauses of seconds to hours at chosen points.  They are only generated for the virtual-time stream
+// (vt_test.go: the run happens inside a testing/synctest bubble, where sleeping costs nothing), so that behaviour that
+// depends on the clock — stall guards, idle timeouts, "still waiting" timers — is exercised at any duration.
+type LongPauses struct {
+	Source map[int]int         `json:"source,omitempty"` // feature index (len(features) = before the close) -> seconds before handing it over
+	Snap   map[int]int         `json:"snap,omitempty"`   // feature index -> seconds inside the processPolygonFunc (every part)
+	Target map[int]map[int]int `json:"target,omitempty"` // target -> k-th received feature (0-based) -> seconds of handling
+}
+
 type Scenario struct {
-	Index    int        `json:"index"`
-	Seed     int64      `json:"seed"`
-	Procs    int        `json:"gomaxprocs"`
-	Targets  []int      `json:"targets"`
-	Features []FeatSpec `json:"features"`
-	Delays   Delays     `json:"delays"`
-	Profile  string     `json:"profile"`
+	Long     *LongPauses `json:"long,omitempty"`
+	Index    int         `json:"index"`
+	Seed     int64       `json:"seed"`
+	Procs    int         `json:"gomaxprocs"`
+	Targets  []int       `json:"targets"`
+	Features []FeatSpec  `json:"features"`
+	Delays   Delays      `json:"delays"`
+	Profile  string      `json:"profile"`
 }
 
 // Event as recorded by the fakes, in the order of one global log (mutex).
@@ -134,6 +144,8 @@ func genLength(r *rand.Rand, maxLen int) int {
 
 var profiles = []string{"uniform", "fast", "slow-reader", "slow-snap", "slow-last-target", "slow-finish", "one-proc", "slow-first-target", "bursty"}
 
+var manyParts = []int{15, 17, 31, 33, 40, 63, 65, 100, 129, 257}
+
 func genScenario(r *rand.Rand, idx int, scheduleHeavy bool) Scenario {
 	sc := Scenario{Index: idx, Seed: r.Int63()}
 	nT := 1 + r.Intn(5)
@@ -165,6 +177,11 @@ func genScenario(r *rand.Rand, idx int, scheduleHeavy bool) Scenario {
 		case x < 70:
 			f.Kind = "multipolygon"
 			k := r.Intn(5) // 0 parts allowed
+			if r.Intn(20) == 0 {
+				// a multipolygon of very many parts (an archipelago): thresholds of batching / worker pools / buffered
+				// hand-overs in the part loop (16, 32, 64, 128, 256) are only crossed by such features
+				k = manyParts[r.Intn(len(manyParts))]
+			}
 			f.Parts = []Outcome{}
 			for j := 0; j < k; j++ {
 				f.Parts = append(f.Parts, genOutcome(r, sc.Targets, &next, pDrop+0.1, pSplit))
@@ -535,4 +552,47 @@ func hashString(s string) uint64 {
 		h *= 1099511628211
 	}
 	return h
+}
+
+var longSeconds = []int{2, 11, 31, 61, 301, 3601, 90000}
+
+// genVTScenario: an ordinary scenario of moderate length with one to three long pauses.
+func genVTScenario(r *rand.Rand, idx int) Scenario {
+	sc := genScenario(r, idx, true)
+	if len(sc.Features) > 40 {
+		sc.Features = sc.Features[:40]
+	}
+	for i := range sc.Features { // keep the archipelagos short here
+		if len(sc.Features[i].Parts) > 6 {
+			sc.Features[i].Parts = sc.Features[i].Parts[:6]
+		}
+	}
+	lp := &LongPauses{Source: map[int]int{}, Snap: map[int]int{}, Target: map[int]map[int]int{}}
+	n := len(sc.Features)
+	sec := func() int { return longSeconds[r.Intn(len(longSeconds))] }
+	for k := 1 + r.Intn(3); k > 0; k-- {
+		switch r.Intn(4) {
+		case 0: // the source is quiet: before the first feature, in mid-stream, before the last, before the close
+			pos := []int{0, n / 2, n - 1, n}[r.Intn(4)]
+			if pos < 0 {
+				pos = 0
+			}
+			lp.Source[pos] = sec()
+		case 1:
+			if n > 0 {
+				lp.Snap[r.Intn(n)] = sec()
+			}
+		default: // one target is slow on one hand-over (the first, a middle one, a late one)
+			if len(sc.Targets) > 0 && n > 0 {
+				t := sc.Targets[r.Intn(len(sc.Targets))]
+				if lp.Target[t] == nil {
+					lp.Target[t] = map[int]int{}
+				}
+				lp.Target[t][[]int{0, 1, r.Intn(n), n / 2}[r.Intn(4)]] = sec()
+			}
+		}
+	}
+	sc.Long = lp
+	sc.Profile = "virtual-time " + sc.Profile
+	return sc
 }
